@@ -4975,7 +4975,19 @@ impl<'a, 'graph> Builder<'a, 'graph> {
       StackString,
       CachedJsrVersionProbe,
     > = HashMap::new();
+    // Several importers can queue the same specifier before it is resolved.
+    // Resolve it once: a second resolution could select another version
+    // (when a higher one was selected in between), overwrite the redirect
+    // and leave the first version's modules in the graph with no importer.
+    let mut resolved_in_pass: HashMap<ModuleSpecifier, usize> = HashMap::new();
     while let Some(pending_resolution) = pending_resolutions.pop_front() {
+      if let Some(index) = resolved_in_pass.get(&pending_resolution.specifier)
+      {
+        let first: &mut PendingJsrNvResolutionItem =
+          &mut pending_version_resolutions[*index];
+        first.is_root |= pending_resolution.is_root;
+        continue;
+      }
       let package_name = &pending_resolution.package_ref.req().name;
       let fut = self
         .state
@@ -5010,6 +5022,10 @@ impl<'a, 'graph> Builder<'a, 'graph> {
             Ok(package_nv) => {
               // now queue a pending load for that version information
               self.queue_load_package_version_info(&package_nv);
+              resolved_in_pass.insert(
+                pending_resolution.specifier.clone(),
+                pending_version_resolutions.len(),
+              );
               pending_version_resolutions.push(PendingJsrNvResolutionItem {
                 specifier: pending_resolution.specifier,
                 nv_ref: JsrPackageNvReference::new(PackageNvReference {
